@@ -98,6 +98,15 @@ def add_extras(rnd, spec, site):
                               'extra': True})
         spec['cells'].append({'a': b, 'f': f'={wbgen.rc_coord(row + 2, 1)}+1', 'p': [a], 'd': [],
                               'extra': True})
+    if sheet == spec.get('data_sheet') and rnd.random() < 0.8:
+        # F stands inside whole-column / whole-row ranges: a reader of its column
+        r_, c_ = wbgen.coord_rc(coord)
+        col = wbgen.rc_coord(1, c_)[:-1]
+        members = [x for x in dag.order if wbgen.split_addr(x)[0] == sheet and
+                   wbgen.coord_rc(wbgen.split_addr(x)[1])[1] == c_]
+        a = f'{main}!{wbgen.rc_coord(row + 3, 1)}'
+        spec['cells'].append({'a': a, 'f': f'=SUM({wbgen.quote_sheet(sheet)}!{col}:{col})+1',
+                              'p': members, 'd': [], 'extra': True})
     if consts and rnd.random() < 0.6:
         # a range that contains F's value next to constants: =SUM(F, const range)
         c = rnd.choice(consts)
